@@ -3,7 +3,7 @@
    All statements hold for every parameter record p (signedness of char, length and strictness of the
    cold-start window), every object name, every pair of different endpoint names, both orders in which the
    zone's members may be visited, every start time / clock value and every event sequence. *)
-From Icv Require Import Base.Tac Auth.AuModel Auth.AuProofs Auth.AuObs Auth.AuOracleProofs Auth.AuFacts.
+From Icv Require Import Base.Tac Auth.AuModel Auth.AuProofs Auth.AuObs Auth.AuOracleProofs Auth.AuConc Auth.AuConcProofs Auth.AuFacts.
 Local Open Scope Z_scope.
 
 (* both members see each other: UpdateObjectAuthority on A and on B name the same owner, the owner is one of
@@ -125,6 +125,35 @@ Theorem C10_sdbm : forall sgn h b s,
   au_sdbm_step sgn h b = (au_char sgn b + 65599 * h) mod au_W /\ 0 <= au_sdbm sgn s < au_W.
 Proof. intros. exact (conj (au_sdbm_step_closed sgn h b) (au_sdbm_range sgn s)). Qed.
 Print Assumptions C10_sdbm.
+
+(* SetAuthority called concurrently (any number of threads, any arguments, any number of calls per thread, ANY
+   interleaving of the steps load paused / take ObjectLock / load paused again / call Resume|Pause / store paused /
+   unlock, with or without an unlocked fast path in front): as long as `paused' is tested again under the lock,
+   the calls of Resume()/Pause() on the object alternate, starting with the one that fits the initial flag - i.e.
+   every authority change produces exactly one call - and whenever nobody holds the lock the flag is what the calls
+   so far imply.  Relies on: loads/stores of `paused' are atomic, ObjectLock is mutual exclusion. *)
+Theorem C10_once_concurrent : forall c p0 todo sched,
+  auc_recheck c = true ->
+  let s := auc_run c (auc_init p0 todo) sched in
+  auc_altb p0 (auc_trace s) = true /\
+  (auc_lock s = None -> auc_paused s = auc_after p0 (auc_trace s)) /\
+  (auc_lock s = None -> auc_round_ok p0 (auc_trace s) (auc_paused s) = true).
+Proof. exact auc_once_concurrent. Qed.
+Print Assumptions C10_once_concurrent.
+
+(* ... and the test under the lock is needed: with only the unlocked fast path two overlapping
+   SetAuthority(true) on a paused object call Resume() twice (the interleaving is auc_bad_sched) *)
+Theorem C10_once_needs_locked_recheck :
+  let s := auc_run auc_seeded (auc_init true auc_two_true) auc_bad_sched in
+  auc_trace s = [AcResumeCall; AcResumeCall] /\ auc_altb true (auc_trace s) = false /\ auc_lock s = None.
+Proof. exact auc_needs_locked_recheck. Qed.
+Print Assumptions C10_once_needs_locked_recheck.
+
+(* source fact: the tree as it is tests `paused' under the ObjectLock (fails to check when the translator
+   positively recognises a SetAuthority that looks at `paused' only before taking the lock) *)
+Theorem C10_source_locked_recheck : auc_recheck {| auc_fast := false; auc_recheck := au_recheck_now |} = true.
+Proof. reflexivity. Qed.
+Print Assumptions C10_source_locked_recheck.
 
 (* the executable oracle run over implementation traces never fires on a trace the model produces *)
 Theorem C10_oracle_accepts_model : forall p a b za zb objs evs,
